@@ -184,6 +184,38 @@ func c04Lend(a []string) string {
 			}
 		}
 	}()
+	// two callers on connections of their own that use the same message id (identifiers are chosen per process): each
+	// gets the answer to its own request
+	extra := 0
+	{
+		var raws []*lendRaw
+		for i := 0; i < 2; i++ {
+			rc, err := lendDial(addr)
+			if err != nil {
+				return "setup-error:" + err.Error()
+			}
+			defer rc.conn.Close()
+			raws = append(raws, rc)
+		}
+		args := []string{"raw-A", "raw-B"}
+		for i, rc := range raws {
+			rc.send(qnet.NewHeader(qnet.Call, sid, oid, 200, 40), []byte(args[i]))
+		}
+		extra = 2
+		for i, rc := range raws {
+			select {
+			case m, ok := <-rc.in:
+				if !ok {
+					return "fail:unanswered: the connection of a caller was closed"
+				}
+				if m.Header.Type != qnet.Reply || string(m.Payload) != "echo:"+args[i] {
+					return fmt.Sprintf("fail:crossed: the caller of %q (message id 40 on its own connection) received type %d %q", args[i], m.Header.Type, m.Payload)
+				}
+			case <-time.After(4 * time.Second):
+				return fmt.Sprintf("fail:unanswered: the call of %q (message id 40 on its own connection) got no answer", args[i])
+			}
+		}
+	}
 	clients := make([]bus.Client, C)
 	for i := range clients {
 		ep, err := qnet.DialEndPoint(addr)
@@ -240,8 +272,8 @@ func c04Lend(a []string) string {
 			return fmt.Sprintf("fail:twice: the hosting client saw the call of %q %d times", arg, n)
 		}
 	}
-	if len(seen) != N*K {
-		return fmt.Sprintf("fail:lost: the hosting client saw %d calls of %d", len(seen), N*K)
+	if len(seen) != N*K+extra {
+		return fmt.Sprintf("fail:lost: the hosting client saw %d calls of %d", len(seen), N*K+extra)
 	}
 	return "ok"
 }
